@@ -26,6 +26,7 @@ import EinxModel.Driver.OptDag
 import EinxModel.Driver.Lower
 import EinxModel.Driver.Xlate
 import EinxModel.Driver.Exec
+import EinxModel.Driver.AtLower
 /-! Line-protocol driver: one JSON request per input line, one JSON answer per output line. -/
 open Lean Einx.Driver
 
@@ -58,6 +59,7 @@ def dispatch (j : Json) : R Json := do
   | "lower_model" => Einx.Driver.Lower.handle j
   | "xlate_stb" | "xlate_diag" | "xlate_ids" | "xlate_unravel" | "py_prelude" => Einx.Driver.Xlate.handle j
   | "exec_check" => Einx.Driver.Exec.handle j
+  | "lower_at" => Einx.Driver.AtLower.handle j
   | "update_denote" | "update_lower" | "update_get" | "update_addr" | "np_put" | "np_ufunc_at" | "assignments" =>
     Einx.Driver.Update.handle j
   | k => throw s!"unknown kind {k}"
